@@ -225,16 +225,19 @@ func firstDiff(a, b string) map[string]interface{} {
 
 // job is one (program, target, option set, -r) compilation key.
 type job struct {
-	P       int
-	Prog    *idl.Program
-	Src     map[string]string // file name -> text
-	AltSrc  map[string]string // html only: same program with non-string-keyed map literals emptied (see sanitizeForHTML)
-	Tgt     target
-	Set     optSet
-	Recurse bool
-	Reps    int
-	Vars    []string // location variations to apply
-	Dir     string   // private scratch directory of the job
+	P                   int
+	Prog                *idl.Program
+	Src                 map[string]string // file name -> text
+	AltSrc              map[string]string // html only: same program with non-string-keyed map literals emptied (see sanitizeForHTML)
+	Tgt                 target
+	Set                 optSet
+	Recurse             bool
+	Reps                int
+	Vars                []string // location variations to apply
+	Dirty               []string // -out directories that already hold the output of ANOTHER compilation
+	RootPlus, RootMinus string   // root file text with declarations added / with the last declaration removed
+	AltPlus, AltMinus   string   // the same for AltSrc
+	Dir                 string   // private scratch directory of the job
 }
 
 // one observation of the compiler
@@ -339,6 +342,88 @@ func compare(ref, o *obs) *difference {
 	return nil
 }
 
+// compareEmitted checks that every file of the reference (what the compilation
+// emits into a fresh directory) is present with the same bytes in o, whose
+// -out directory held the output of another compilation before.  Files that
+// only the earlier compilation wrote may remain: their absence is not required.
+func compareEmitted(ref, o *obs) *difference {
+	if (ref.Exit == 0) != (o.Exit == 0) {
+		return &difference{Kind: "acceptance", Detail: map[string]interface{}{"exit_a": ref.Exit, "exit_b": o.Exit, "output_a": clip(ref.Out, 600), "output_b": clip(o.Out, 600)}, FirstRun: ref, Other: o}
+	}
+	if ref.Exit != 0 {
+		return nil
+	}
+	var names []string
+	for n := range ref.Tree {
+		names = append(names, n)
+	}
+	sort.Strings(names)
+	for _, n := range names {
+		hb, okb := o.Tree[n]
+		if !okb {
+			return &difference{Kind: "file-set", Rel: n, Detail: map[string]interface{}{"present_in_a": true, "present_in_b": false}, FirstRun: ref, Other: o}
+		}
+		if ref.Tree[n] != hb {
+			return &difference{Kind: "file-content", Rel: n, FirstRun: ref, Other: o}
+		}
+	}
+	return nil
+}
+
+// otherCompilation picks the compilation X whose output pre-fills the -out
+// directory: another flavour for the Python family, otherwise the next option
+// set of the same target.
+func otherCompilation(j *job, tgts []target) (target, optSet) {
+	if strings.HasPrefix(j.Tgt.Name, "py") {
+		fl := []string{"py:asyncio", "py:tornado", "py"}
+		for i, n := range fl {
+			if n == j.Tgt.Name {
+				want := fl[(i+1+j.P%2)%3]
+				if want == j.Tgt.Name {
+					want = fl[(i+1)%3]
+				}
+				for _, t := range tgts {
+					if t.Name == want {
+						return t, j.Set
+					}
+				}
+			}
+		}
+	}
+	for i, s := range j.Tgt.Sets {
+		if s.Label == j.Set.Label {
+			return j.Tgt, j.Tgt.Sets[(i+1)%len(j.Tgt.Sets)]
+		}
+	}
+	return j.Tgt, j.Tgt.Sets[0]
+}
+
+// runDirty compiles X into the -out directory first and then the job's own
+// compilation Y into the same directory; returns Y's observation (nil when X
+// was rejected: nothing to observe).
+func (c *c19) runDirty(j *job, kind, srcA, outA, rootFile string) *obs {
+	os.RemoveAll(outA)
+	xj := *j
+	rootPath := filepath.Join(srcA, rootFile)
+	switch kind {
+	case "out-holds-other-option-set":
+		xj.Tgt, xj.Set = otherCompilation(j, targets())
+	case "out-holds-revision-with-more-declarations":
+		os.WriteFile(rootPath, []byte(j.RootPlus), 0o644)
+	case "out-holds-revision-with-fewer-declarations":
+		os.WriteFile(rootPath, []byte(j.RootMinus), 0o644)
+	}
+	x := c.compile(&xj, srcA, rootFile, "out", outA)
+	os.WriteFile(rootPath, []byte(j.Src[rootFile]), 0o644)
+	c.run.Eval(1)
+	if x.Exit != 0 {
+		c.run.Add("dirty_out_first_compilation_rejected_or_timed_out", 1)
+		os.RemoveAll(outA)
+		return nil
+	}
+	return c.compile(j, srcA, rootFile, "out", outA)
+}
+
 func clip(s string, n int) string {
 	if len(s) > n {
 		return s[:n] + "…"
@@ -395,6 +480,7 @@ func (c *c19) runJob(j *job) {
 		// emptied.  Counted in evidence, never hidden.
 		os.RemoveAll(srcA)
 		j.Src = j.AltSrc
+		j.RootPlus, j.RootMinus = j.AltPlus, j.AltMinus
 		c.writeSources(srcA, j.Src)
 		run.Add("html_programs_retried_with_non_string_keyed_map_literals_emptied", 1)
 		ref = c.compile(j, srcA, rootFile, "out", outA)
@@ -499,6 +585,37 @@ func (c *c19) runJob(j *job) {
 			os.RemoveAll(p)
 		}
 	}
+	// -out directories that already hold the output of another compilation
+	if ref.Exit == 0 {
+		for _, kind := range j.Dirty {
+			o := c.runDirty(j, kind, srcA, outA, rootFile)
+			if o == nil {
+				continue
+			}
+			run.Eval(1)
+			run.Add("dirty_out_comparisons", 1)
+			run.Add("dirty_out:"+kind, 1)
+			if o.Exit == -99 {
+				run.Inconclusive(fmt.Sprintf("watchdog in %q (program %d, %s)", kind, j.P, label))
+			} else if d := compareEmitted(ref, o); d != nil {
+				// is the compilation stable at all?  compile it into a fresh directory again
+				unstable := false
+				for again := 0; again < 3 && !unstable; again++ {
+					os.RemoveAll(outA)
+					f := c.compile(j, srcA, rootFile, "out", outA)
+					unstable = f.Exit != -99 && compare(ref, f) != nil
+				}
+				if unstable {
+					run.Add("dirty_out_differences_attributed_to_nondeterminism", 1)
+					os.RemoveAll(outA)
+					continue // the repetition experiment reports it under C19:nondeterministic
+				}
+				what := fmt.Sprintf("a file emitted into an -out directory that held the output of another compilation (%s) differs from the same compilation into a fresh directory: %s %s", kind, d.Kind, d.Rel)
+				report("location-dependent", j.Tgt.Name+":"+kind, what, d, refKeep)
+			}
+			os.RemoveAll(outA)
+		}
+	}
 	os.RemoveAll(j.Dir)
 }
 
@@ -561,10 +678,33 @@ func (c *c19) plainAlsoDiffers(j *job) bool {
 	return false
 }
 
+var dirtyKinds = []string{"out-holds-other-option-set", "out-holds-revision-with-more-declarations", "out-holds-revision-with-fewer-declarations"}
+
+// revisions renders two neighbours of the program's root file: one with a
+// struct, a service and (in .frugal files) a scope added, one with the last
+// declaration removed (nothing can refer to the last declaration of the root:
+// it is a service, a scope or, failing those, the last constant / struct).
+func revisions(p *idl.Program, style idl.Style, src map[string]string) (plus, minus string) {
+	root := p.Root()
+	nl := "\n"
+	plus = src[root.FileName()] + nl + "struct ZzExtraThing {" + nl + "  1: i32 zzField" + nl + "}" + nl +
+		"service ZzExtraService {" + nl + "  ZzExtraThing zzCall(1: ZzExtraThing zzArg)" + nl + "}" + nl
+	if root.Ext == ".frugal" {
+		plus += "scope ZzExtraScope prefix zz.{zzVar} {" + nl + "  ZzOp: ZzExtraThing" + nl + "}" + nl
+	}
+	cp := *root
+	if n := len(root.Decls); n > 1 && (root.Decls[n-1].Service != nil || root.Decls[n-1].Scope != nil) {
+		cp.Decls = root.Decls[:n-1]
+	}
+	minus = idl.RenderFile(&cp, style)
+	return plus, minus
+}
+
 var allVars = []string{"cwd+absolute-file", "source-root", "out-absolute-nested", "out-relative-nested+relative-file-depth", "out-pre-existing-identical", "dot-slash-file"}
 
 func runC19(tier string) int {
 	run := ev.New("C19", tier, "exploration")
+	run.Assume("dirty -out directories: only the files the observed compilation emits are compared; files left by the earlier compilation may remain")
 	run.Rule("random valid multi-file programs (idl.Generate, CoreConfig scaled to 6-10 files in an include DAG, 15-30 struct-likes per file, up to 4 services and 4 scopes per file) x targets x option sets x -r on/off; every (program,target,options,-r) key is compiled R times in one place (same cwd, same arguments, output removed in between) and once per location variation (cwd + absolute file, other source root and depth, absolute nested -out, relative nested -out with a relative file path, identical pre-existing -out, ./ spellings); oracle = equality of {path relative to -out -> sha256}; distinct = (target, option set, -r, output size bucket)")
 	run.Assume("sha256 equality of every emitted file is byte identity")
 	run.Assume("java generated_annotations=use is excluded: it is dated by design; use_vendor is not exercised (needs vendor annotations)")
@@ -601,6 +741,21 @@ func runC19(tier string) int {
 			run.Sample(map[string]interface{}{"program": i, "files": len(p.Files), "root": p.Root().FileName(), "features": p.FeatureList(), "root_text_head": clip(src[p.Root().FileName()], 500)})
 		}
 		alt := sanitizeForHTML(p, style)
+		rootPlus, rootMinus := revisions(p, style, src)
+		altPlus, altMinus := rootPlus, rootMinus
+		if alt != nil {
+			// html only: the neighbours of the sanitized program
+			altPlus = alt[p.Root().FileName()] + strings.TrimPrefix(rootPlus, src[p.Root().FileName()])
+			pm := *p
+			rm := *p.Root()
+			if n := len(rm.Decls); n > 1 && (rm.Decls[n-1].Service != nil || rm.Decls[n-1].Scope != nil) {
+				rm.Decls = rm.Decls[:n-1]
+			}
+			pm.Files = append(append([]*idl.File{}, p.Files[:len(p.Files)-1]...), &rm)
+			if am := sanitizeForHTML(&pm, style); am != nil {
+				altMinus = am[rm.FileName()]
+			}
+		}
 		for ti, t := range tgts {
 			var sets []optSet
 			if run.Thorough() {
@@ -628,7 +783,15 @@ func runC19(tier string) int {
 				if t.Name == "html" {
 					altSrc = alt
 				}
+				dirty := []string{dirtyKinds[0], dirtyKinds[1+(i+ti+si)%2]}
+				if run.Thorough() {
+					dirty = dirtyKinds
+					if kreps != reps {
+						dirty = []string{dirtyKinds[(i+ti+si)%len(dirtyKinds)]}
+					}
+				}
 				jobs = append(jobs, &job{P: i, Prog: p, Src: src, AltSrc: altSrc, Tgt: t, Set: s, Recurse: recurse, Reps: kreps, Vars: vars,
+					Dirty: dirty, RootPlus: rootPlus, RootMinus: rootMinus, AltPlus: altPlus, AltMinus: altMinus,
 					Dir: filepath.Join(base, fmt.Sprintf("p%d", i), fmt.Sprintf("j%d_%d", ti, si))})
 			}
 		}
@@ -644,6 +807,7 @@ func runC19(tier string) int {
 		run.Set("thorough_cost_rule", "plain + one rotating option set per (program,target): 10 repetitions + 3 location variations; other option sets: 3 repetitions + 2 location variations")
 	}
 	run.Set("location_variation_kinds", allVars)
+	run.Set("dirty_out_kinds", dirtyKinds)
 
 	ch := make(chan *job)
 	var wg sync.WaitGroup
